@@ -112,7 +112,14 @@ def c01_local(full):
                 out.append(F(["C01"], "relation-equation", what=kind, index=idx, rt=rt, ref=ref, start=s, want=want,
                              multi=bool(rec.get("multi"))))
             tgt_block = blk[ref[1]] if ref[0] == "op" else comps[ref[1]]["parent"]
-            internal = tgt_block == block
+            # a reference to a member of the same block, or (after a rebuild re-linked it) to an operation nested
+            # somewhere below the same block, is the operation's own relation - not one inherited from outside
+            b = tgt_block
+            hops = 0
+            while b is not None and b != block and hops < 1000:
+                b = comps[b]["parent"]
+                hops += 1
+            internal = b == block
         if not internal and ref != "ext":
             bs = block_start(block)
             if bs is not None and s != bs:
